@@ -73,6 +73,7 @@ static void script_task(void *arg)
 	for (int i = 0; i < w->nops; i++) {
 		int op = (int)rng_below(&r, 24);
 		if (g_tp->afail_at >= 0 && rng_chance(&r, 1, 2)) op = 12;      /* the operation that allocates */
+		if (g_tp->op > 0 && rng_chance(&r, 3, 4)) op = (int)(g_tp->op - 1) % 24;   /* storm: every script task mostly runs the same kind of operation */
 		size_t n = 1 + rng_below(&r, 1500);
 		rng_bytes(&r, buf, n); rng_bytes(&r, key, 32); rng_bytes(&r, iv, 16);
 		DI(w, op);
@@ -188,10 +189,15 @@ static void script_task(void *arg)
 			DI1(w, x509_crl_sign_to_der(1, OID_sm2sign_with_sm3, name, namelen, tu, tu + 86400 * 900LL, NULL, 0, NULL, 0,
 				&ck, SM2_DEFAULT_ID, SM2_DEFAULT_ID_LENGTH, &p, &len)); D(w, crl, len);
 			DI1(w, x509_signed_verify(crl, len, &ck, SM2_DEFAULT_ID, SM2_DEFAULT_ID_LENGTH)); DI1(w, x509_crl_check(crl, len, (time_t)SIM_T0)); break; }
-		case 22: { /* printing into a caller-designated stream */
+		case 22: { /* printing into a caller-designated stream: a certificate of this task (its own validity period) and a shared chain */
 			const CredSet *cr = creds_get(2, 0); char *txt = NULL; size_t tl = 0;
+			SM2_KEY pk; Ident own;
+			int64_t nb = SIM_T0 - 3600 - (int64_t)w->id * 86400LL * 31, na = SIM_T0 + 86400 + (int64_t)w->id * 86400LL * 45;
+			CertSpec ps = { "print.sim", 0, -1, X509_KU_DIGITAL_SIGNATURE, nb, na };
+			DI1(w, sm2_key_generate(&pk)); DI1(w, creds_issue(&ps, &pk, NULL, &own));
 			FILE *mf = open_memstream(&txt, &tl);
 			if (mf) {
+				DI1(w, x509_cert_print(mf, 0, 0, "Certificate", own.cert, own.certlen));
 				const uint8_t *c = cr->srv_chain; size_t cl = cr->srv_chain_len; const uint8_t *cert; size_t certlen;
 				while (cl && x509_cert_from_der(&cert, &certlen, &c, &cl) == 1) DI1(w, x509_cert_print(mf, 0, 0, "Certificate", cert, certlen));
 				fclose(mf); D(w, txt, tl); free(txt);
@@ -258,6 +264,9 @@ static void threads_gen(Plan *p, uint64_t base_seed, uint64_t variant, int tier)
 	gen_rounds(p, &g, tier, 2, 3000);
 	/* non-blocking sockets for the connection tasks; allocator failures for the script tasks */
 	p->eagain = rng_chance(&g, 1, 3);
+	/* a third of the plans are storms of one operation kind: two tasks are then inside the same library function
+	 * far more often than in a mixed workload, which is what function-local shared state needs to show */
+	p->op = rng_chance(&g, 1, 3) ? 1 + rng_below(&g, 24) : 0;
 	if (rng_chance(&g, 1, 4)) { p->afail_node = -2; p->afail_at = rng_below(&g, 3); p->afail_rest = rng_chance(&g, 2, 3); }
 }
 
